@@ -6,15 +6,16 @@ from props.c01_conv import (OPS as CONV_OPS, gen_cases_conv, run_conv, check_con
 from props.c01_w3 import OPS3, gen_cases_w3, run_w3, check_w3, oracle_w3
 from props.c01_conv import mk_dense_opt, mk_sparse_opt
 from props.c01_w4 import gen_cases_w4
+from props.c01_w5 import OPS5, gen_cases_w5, run_w5, check_w5, oracle_w5
 
 PROP = "C01"
 LEVEL = "proof"
 GEN_UNITS = ["GenUtils", "GenUtils2", "GenKernels", "GenMethods"]     # C01_gather_wrap_dims_generated / C01_sparse_index_generated / C01_khatrirao_generated are stated over generated functions
-COQ_TARGETS = ["Props/C01.vo", "Model/C01Harness.vo", "Model/Harness.vo"]
-THEOREM_FILES = ["Props/C01.v"]
+COQ_TARGETS = ["Props/C01.vo", "Props/C01w5.vo", "Model/C01Harness.vo", "Model/C01W5H.vo", "Model/Harness.vo"]
+THEOREM_FILES = ["Props/C01.v", "Props/C01w5.v"]
 COQ_IMPORTS = ("From Coq Require Import List ZArith Bool.\n"
                "From PV Require Import Base.Index Base.Perm Np.Array Model.Sparse Model.Repr Model.Harness Model.C07Ops Model.C07Harness "
-               "Model.C01Conv Model.C01Unique Model.C01Coo Model.C01W3 Model.C01W4 Model.C01Harness.\n")
+               "Model.C01Conv Model.C01Unique Model.C01Coo Model.C01W3 Model.C01W4 Model.C01Harness Model.C01W5 Model.C01W5H.\n")
 RULE = ("dense<->sparse: all shapes with <= 8 cells (exhaustive) + seeded random shapes <= 5 modes / 96 cells; sparsity {0,1,some,all}; stored "
         "orders {sorted,reversed,random}; non-trivial = more than one cell and at least one nonzero; distinct = distinct (op,args); "
         "matricisation: every ordered partition of the modes into (rdims, cdims) for N<=4 (either side may be empty) + seeded sample "
@@ -43,7 +44,12 @@ RULE = ("dense<->sparse: all shapes with <= 8 cells (exhaustive) + seeded random
         "prefix of the entries, from sptensor(shape=ones), from sptensor()) handed to to_sptenmat / to_sptensor back / full / double / "
         "sums; values scaled by 2^27 + 1 (int64 / float64) through every value-moving op; Tucker factor matrices as scipy coo matrices "
         "with ttensor(copy=True / False); the aliases to_tensor() of ktensor / ttensor / sumtensor, tensor.full(), "
-        "tenmat.to_tensor(copy=False) with the tenmat re-observed; rank-0 Kruskal and sparse-core Tucker parts inside sums")
+        "tenmat.to_tensor(copy=False) with the tenmat re-observed; rank-0 Kruskal and sparse-core Tucker parts inside sums; "
+        "fifth wave (props/c01_w5.py): Tucker tensors with dense / sparse cores (<= 3 cells per mode) and coo factor matrices given as raw "
+        "triples {row-major, shuffled, split positions, explicit / cancelling zeros, empty, dense} mixed with ndarray factors in the layouts "
+        "above, ttensor(copy=True / False) — the former N-C01-5 witness and its variants first; X.ttm(matrices, dims | exclude_dims, "
+        "transpose) on dense / sparse receivers with ndarray / coo matrices, modes in any order, the four argument forms, result container "
+        "observed raw; Kruskal shapes split 1|3, 3|1 and 6-way (7x2x2x2, 2x2x2x7, 9x2x3x2, 2x3x2x12, 2^6, 3x2x1x2x2x2)")
 CORRESPONDENCE_ONLY = [
     "scipy: coo_matrix construction, toarray() (positions summed) and coo.dot(dense matrix) (matrix product) are modelled, not verified",
     "memory layout / element type / copy flag of the arrays handed to constructors (C-contiguous, strided views, negative strides, "
@@ -53,14 +59,17 @@ CORRESPONDENCE_ONLY = [
     "is compared on generated inputs only (fourth-wave stream props/c01_w4.py re-runs every op with these options)",
     "sumtensor histories: a second conversion of the same sumtensor and the state of the parts afterwards are observed, not modelled "
     "(the single conversion as executed is proved: C01_sum_impl)",
-    "sptensor.ttm over a LIST of modes other than the Tucker use (mode 0 then dense): single mode n is proved (C01_sptensor_ttm)",
-    "sptensor.ttm result container (`Z.nnz <= 0.5 * prod(siz)` is never reached with a dense matrix: Z is an ndarray): modelled as the "
-    "to_tensor() branch",
-    "Tucker tensors whose factor matrices are scipy coo matrices (tensor.ttm / sptensor.ttm with a sparse matrix, where the sparse "
-    "result container IS reached): the model has dense factor matrices; full() / double() / to_tensor() are compared with it on "
-    "generated inputs only",
-    "min_split_dims inside ktensor.full is a nested function the translator does not reach: hand transliteration (the Khatri-Rao "
-    "products, ncomponents and ndims it is combined with ARE the generated functions: C01_kruskal_generated)",
+    "scipy's sparse-sparse product inside sptensor.ttm with a coo matrix (`Xnt.double().dot(U.T)`): a PARAMETER of the model constrained "
+    "by spdot_spec (well-formed coo matrix of the right shape denoting the matrix product); the theorems hold for every such function, "
+    "the generated cases are evaluated with spdot_ref; coo @ ndarray inside tensor.ttm is modelled as the product with toarray()",
+    "the container (tensor / sptensor) sptensor.ttm answers with for a coo matrix depends on how many entries scipy's product STORES: "
+    "the theorems cover both containers, the generated cases compare the densified result and the well-formedness of a sparse one, "
+    "not which container was chosen",
+    "the reordering of (modes, matrices) by tt_dimscheck in front of the ttm loop is applied by the harness (sorted by mode); the "
+    "request resolution over the GENERATED tt_dimscheck is C02's theorem C02_dimscheck_align, the loop on the delivered pairs is "
+    "C01_ttm_mode_list",
+    "min_split_dims inside ktensor.full is a nested function the translator does not reach: hand transliteration; its value is "
+    "immaterial beyond lying in 1 .. N-1 (C01_kruskal_any_split, and C01_kruskal_generated_any_split over the GENERATED khatrirao)",
 ]
 ASSUMPTIONS = ["numpy transpose / F-order reshape / scatter / nonzero semantics as defined in Np/Array.v and Model/Sparse.v",
                "np.unique(axis=0, return_inverse=True) orders rows lexicographically (first column most significant) and accumarray(func=sum) "
@@ -94,6 +103,8 @@ def gen_cases(rng, tier):
     # fourth wave: the same ops on other element types / index types / memory layouts / copy flags (props/c01_w4.py)
     own = [c for c in cases if c.op in ("to_sptensor", "sp_full", "sp_to_tensor", "sp_double")]
     cases += gen_cases_w4(rng, tier, rng.sample(own, min(len(own), 240 if big else 60)))
+    # fifth wave: coo factor matrices of Tucker tensors (raw triples), ttm over mode lists, skewed Kruskal shapes (props/c01_w5.py)
+    cases += gen_cases_w5(rng, tier)
     return cases
 
 
@@ -111,6 +122,8 @@ def _run_impl(c):
         return run_conv(c)
     if c.op in OPS3:
         return run_w3(c)
+    if c.op in OPS5:
+        return run_w5(c)
     import numpy as np
     import pyttb as ttb
     a = c.args
@@ -138,6 +151,8 @@ def coq_check(c, o):
         return check_conv(c, o)
     if c.op in OPS3:
         return check_w3(c, o)
+    if c.op in OPS5:
+        return check_w5(c, o)
     a = c.args
     if "exc" in o:
         return "false"          # every request generated here is admissible
@@ -164,6 +179,8 @@ def oracle(c, o):
         return oracle_conv(c, o)
     if c.op in OPS3:
         return oracle_w3(c, o)
+    if c.op in OPS5:
+        return oracle_w5(c, o)
     a = c.args
     if "exc" in o:
         return f"admissible conversion raised {o['exc']}: {o.get('msg')}"
